@@ -72,6 +72,136 @@ def decompress (raw : Nat) : Nat → Bytes → Bytes → M Bytes
         decompress raw f r.1 r.2
       | [] => pure out
 
+/-! ### compiled code: the same loops over arrays (`@[csimp]`, proved equal; the list versions above are what
+the theorems talk about, the array versions are what the driver executes) -/
+
+def copyLoopMA (start off raw : Nat) : Nat → Nat → Array UInt8 → M (Array UInt8)
+  | 0, _, out => pure out
+  | n+1, i, out =>
+    if out.size < raw then
+      if off = 0 then throw .divZero
+      else match out[start + i % off]? with
+        | some b => copyLoopMA start off raw n (i+1) (out.push b)
+        | none => throw .index
+    else pure out
+
+theorem copyLoopMA_eq (start off raw n i : Nat) (out : Array UInt8) :
+    (copyLoopMA start off raw n i out).map Array.toList = copyLoopM start off raw n i out.toList := by
+  induction n generalizing i out with
+  | zero => rfl
+  | succ n ih =>
+    simp only [copyLoopMA, copyLoopM, Array.length_toList]
+    split
+    · split
+      · rfl
+      · simp only [idx, Array.getElem?_toList]
+        cases h : out[start + i % off]? with
+        | none => rfl
+        | some b =>
+          simp only [ok_bind, pure_eq_ok]
+          rw [ih]; simp
+    · rfl
+
+def itemsA (raw : Nat) : Nat → Nat → Nat → Bytes → Array UInt8 → M (Bytes × Array UInt8)
+  | 0, _, _, data, out => pure (data, out)
+  | n+1, ctrl, bit, data, out =>
+    if data = [] ∨ ¬ out.size < raw then pure (data, out)
+    else if ctrl.testBit bit then
+      match data with
+      | b0 :: b1 :: rest =>
+        let len := decLen b0
+        let off := decOff b0 b1
+        if len = 18 then
+          match rest with
+          | b2 :: r2 =>
+            let len := len + b2.toNat
+            if off = 0 ∨ off > out.size then itemsA raw n ctrl (bit+1) r2 out
+            else do
+              let out ← copyLoopMA (out.size - off) off raw len 0 out
+              itemsA raw n ctrl (bit+1) r2 out
+          | [] => pure (rest, out)
+        else
+          if off = 0 ∨ off > out.size then itemsA raw n ctrl (bit+1) rest out
+          else do
+            let out ← copyLoopMA (out.size - off) off raw len 0 out
+            itemsA raw n ctrl (bit+1) rest out
+      | _ => pure (data, out)
+    else
+      match data with
+      | b :: rest => itemsA raw n ctrl (bit+1) rest (out.push b)
+      | [] => pure (data, out)
+
+def unA (r : Bytes × Array UInt8) : Bytes × Bytes := (r.1, r.2.toList)
+
+theorem map_bind_copy {β γ} (start off raw n i : Nat) (out : Array UInt8) (k : Array UInt8 → M β) (k' : Bytes → M γ) (g : β → γ)
+    (hk : ∀ o, (k o).map g = k' o.toList) :
+    ((copyLoopMA start off raw n i out) >>= k).map g = (copyLoopM start off raw n i out.toList) >>= k' := by
+  rw [← copyLoopMA_eq]
+  cases copyLoopMA start off raw n i out with
+  | error e => rfl
+  | ok o => exact hk o
+
+theorem itemsA_eq (raw n ctrl bit : Nat) (data : Bytes) (out : Array UInt8) :
+    (itemsA raw n ctrl bit data out).map unA = items raw n ctrl bit data out.toList := by
+  induction n generalizing bit data out with
+  | zero => rfl
+  | succ n ih =>
+    simp only [itemsA, items, Array.length_toList]
+    split
+    · rfl
+    · split
+      · rcases data with _ | ⟨b0, _ | ⟨b1, rest⟩⟩
+        · rfl
+        · rfl
+        · simp only []
+          split
+          · rcases rest with _ | ⟨b2, r2⟩
+            · rfl
+            · simp only []
+              split
+              · exact ih ..
+              · exact map_bind_copy _ _ _ _ _ _ _ _ _ (fun o => ih ..)
+          · split
+            · exact ih ..
+            · exact map_bind_copy _ _ _ _ _ _ _ _ _ (fun o => ih ..)
+      · rcases data with _ | ⟨b, rest⟩
+        · rfl
+        · simp only []
+          rw [ih]; simp
+
+def decompressA (raw : Nat) : Nat → Bytes → Array UInt8 → M (Array UInt8)
+  | 0, _, out => pure out
+  | f+1, data, out =>
+    if data = [] ∨ ¬ out.size < raw then pure out
+    else match data with
+      | ctrl :: rest => do
+        let r ← itemsA raw 8 ctrl.toNat 0 rest out
+        decompressA raw f r.1 r.2
+      | [] => pure out
+
+theorem decompressA_eq (raw f : Nat) (data : Bytes) (out : Array UInt8) :
+    (decompressA raw f data out).map Array.toList = decompress raw f data out.toList := by
+  induction f generalizing data out with
+  | zero => rfl
+  | succ f ih =>
+    simp only [decompressA, decompress, Array.length_toList]
+    split
+    · rfl
+    · rcases data with _ | ⟨ctrl, rest⟩
+      · rfl
+      · simp only []
+        rw [← itemsA_eq]
+        cases itemsA raw 8 ctrl.toNat 0 rest out with
+        | error e => rfl
+        | ok r => exact ih ..
+
+def decompressFast (raw f : Nat) (data out : Bytes) : M Bytes := (decompressA raw f data out.toArray).map Array.toList
+
+@[csimp] theorem decompress_eq_fast : @decompress = @decompressFast := by
+  funext raw f data out
+  simp [decompressFast, decompressA_eq]
+
+
 /-- decompressPGLZ: `none` = the Go error return ("data too short").  Every outer iteration consumes the
 control byte, so `len(data)+1` iterations are enough. -/
 def decompressPGLZ (data : Bytes) (rawSize : Nat) : M (Option Bytes) :=
